@@ -80,7 +80,12 @@ impl Sys for MapMap {
         s.merge(o.clone())
     }
     fn reads(s: &S) -> String {
-        format!("{} {}", content(s), map_top_reads(s, KEYS))
+        // contexts of the nested maps and sets are part of the reads (see map_or.rs)
+        let nested: Vec<(u8, String, Vec<(u8, String)>)> = s
+            .iter()
+            .map(|e| (*e.val.0, map_top_reads(e.val.1, KEYS), e.val.1.iter().map(|e2| (*e2.val.0, super::orswot::orswot_reads(e2.val.1))).collect()))
+            .collect();
+        format!("{} {} nested={:?}", content(s), map_top_reads(s, KEYS), nested)
     }
     fn content(s: &S) -> String {
         content(s)
